@@ -189,14 +189,22 @@ def kill_at(args):
                     j, j + 1, where or 'none: a mixture of states')
         # (2) restarting the same script continues: constructor + a few batches must work
         if out['problem'] is None and do_resume and dg is not None:
-            cfg2 = dict(cfg, n_like_max=None)
-            cfg2.pop('n_like_max')
-            json.dump(dict(cfg2, n_like_max=10 ** 9 if False else cfg.get('resume_budget', 0)), open(cfgpath, 'w'))
+            # the same script is run again: it must continue from the file (a stale temporary file is still
+            # lying around) and END in exactly the state the uninterrupted reference run ended in
             rc = subprocess.run(child_cmd(cfgpath, d, 'resume'), cwd=common.VERIF, env=_env(),
                                 stdout=subprocess.PIPE, stderr=subprocess.STDOUT, text=True, timeout=900)
             out['resumed'] = rc.returncode == 0
             if rc.returncode != 0:
                 out['problem'] = 'resume-fails'
                 out['detail'] = 'Sampler(resume=True).run() fails on the file left by the kill: ' + rc.stdout[-400:]
+            else:
+                try:
+                    fin = content_digest(main)
+                except Exception as e:
+                    fin = 'unreadable: %s' % e
+                if fin != snaps_digests[-1]:
+                    out['problem'] = 'resume-diverges'
+                    out['detail'] = ('after the kill (%d completed checkpoints) the re-run script finished in a state that '
+                                     'differs from the uninterrupted run' % j)
     shutil.rmtree(d, ignore_errors=True)
     return out
